@@ -39,13 +39,15 @@ def effect_calls(fl, body):
 # C12
 # ----------------------------------------------------------------------------------------
 
-def check_closed_first(rep, fl, rule="R12.1"):
+def check_closed_first(rep, fl, rule="R12.1", only_ops=None):
     """In every public operation named by C12 the first effect is dominated by the false edge of
     is_closed.load(); the closed edge returns false / None / Ok(()) without any effect."""
     facts = fl.facts
     ops = {"try_insert_in": ("agg", "Ok", ("const", 0, "bool")), "get": "None", "get_mut": "None", "try_remove": ("agg", "Ok", "unit"), "clear": ("agg", "Ok", "unit"),
            "wait": ("agg", "Ok", "unit"), "close": ("agg", "Ok", "unit")}
     for op, want in sorted(ops.items()):
+        if only_ops is not None and op not in only_ops:
+            continue
         b = fl.cache_fn(op)
         at, entry = dataflow(b)
         bodies = [b]
@@ -75,6 +77,8 @@ def check_closed_first(rep, fl, rule="R12.1"):
                     okret = e[0] == "agg" and e[2].endswith("Result::Ok") and e[3][0] == want[2]
         rep.check(okret, rule, fl, b, "closed => neutral", "on a closed cache %s returns %s" % (op, "None" if want == "None" else "Ok(false)" if want[2] != "unit" else "Ok(())"),
                   "%s does not return the neutral value on its closed path" % op)
+    if only_ops is not None:
+        return
     # public wrappers reach the guarded operation only
     for w, tgt in (("insert", None), ("try_insert", None), ("insert_with_ttl", None), ("try_insert_with_ttl", None), ("insert_if_present", None), ("try_insert_if_present", None), ("remove", "try_remove")):
         b = fl.cache_fn(w, required=False)
@@ -730,9 +734,9 @@ def check_C10(rep, fl):
     check_handle_item_sync(rep, fl)
     check_wait_release(rep, fl)
     check_wait_fn(rep, fl)
-    check_closed_first(rep, fl)
+    # wait() on a closed cache returns at once: the closed test of wait (the other operations' tests are C12's)
+    props_store.keep_sites(rep, fl, check_closed_first, ("*",), only_ops=("wait",))
     check_worker_exit(rep, fl)
-    check_cleaner(rep, fl)
     # "removed ones are gone once wait() returns": the Delete marker is ordered behind the sets and cannot be lost
     check_remove_pair(rep, fl)
     # "admitted entries are retrievable and charged": store and policy change membership only on the processor, item
@@ -989,11 +993,14 @@ def check_C11(rep, fl):
     import props_cache
     # clear() on any handle empties the one cache: clones share the parts that are reset and the request channel
     props_cache.check_handle_sharing(rep, fl, fields=("clear_tx", "store", "policy", "metrics"))
-    props_cache.check_metrics_core(rep, fl)
+    # "all metrics counters restart from zero": what clear() zeroes is everything there is
+    props_store.keep_sites(rep, fl, props_cache.check_metrics_core, ("clear zeroes everything", "forwards", "lists every MetricType", "map from array", "installed once"))
     import props_policy
-    props_policy.check_balance(rep, fl, props_policy.slfu_writers(fl.facts))
+    # "the charged cost is zero": SampledLFU::clear leaves used == sum(key_costs) == 0 (the other writers are C01's)
+    props_store.keep_sites(rep, fl, props_policy.check_balance, ("*SampledLFU::clear|*",), props_policy.slfu_writers(fl.facts))
     import props_sketch
-    props_sketch.check_tinylfu(rep, fl)
+    # the estimator is emptied by TinyLFU::clear (how it ages between clears is C13's)
+    props_store.keep_sites(rep, fl, props_sketch.check_tinylfu, ("clear",))
     props_sketch.check_reset_complete(rep, fl, "R11.2", only=("policy::SampledLFU",))
 
 
@@ -1079,8 +1086,10 @@ def check_handle_item_pairing(rep, fl, rule="R06.2", collisions=True, only_sites
     good, cx = all_states(hi, at, (ins[0][0], term_idx(hi, ins[0][0])), A(added), hist=True)
     a = [norm(x) for x in hi.call_args(ins[0][1])]
     okargs = a[1] == item_field("New", "key") and a[2] == item_field("New", "value") and a[3] == item_field("New", "conflict") and a[4] == item_field("New", "expiration")
-    rep.check(good and okargs, "R02.6", fl, hi, "try_insert only if added", "store.try_insert(key, value, conflict, expiration) only on the added edge of policy.add for the same key",
-              "store.try_insert is reachable without `added` (or with other arguments): an entry becomes resident without being charged", loc=ins[0][1]["sp"])
+    rep.check(good, "R02.6", fl, hi, "try_insert only if added", "store.try_insert only on the added edge of policy.add for the same key",
+              "store.try_insert is reachable without `added`: an entry becomes resident without being charged", loc=ins[0][1]["sp"])
+    rep.check(okargs, "R02.6", fl, hi, "try_insert args", "store.try_insert is given the item's own (key, value, conflict, expiration)",
+              "store.try_insert is called with other arguments than the item's (key, value, conflict, expiration): %s" % ", ".join(show(x) for x in a[1:]), loc=ins[0][1]["sp"])
     # added => inserted
     ok = False
     for bi in hi.live_blocks():
